@@ -20,7 +20,7 @@ use std::pin::Pin;
 pub use std::sync::Arc;
 use std::task::{Context, Poll};
 
-pub const CAP: usize = 6;
+pub const CAP: usize = 5;
 
 // ------------------------------------------------------------------------------------------------
 // plain data
@@ -132,10 +132,31 @@ impl<T> SCell<T> {
 }
 
 // ------------------------------------------------------------------------------------------------
-// SkipMap model
+// SkipMap model: struct-of-arrays over primitive slots, first-free-slot allocation, linear scans.
+// (Measured alternatives: arrays of Option<(K,V)> are unions for CBMC, 2-3x more variables; a direct-mapped table
+// indexed by the key is 10x WORSE when the key is symbolic -- the slot number becomes symbolic -- whereas here the
+// slot numbers stay concrete as long as the occupancy pattern is.)  Exceeding CAP panics: fails the harness.
 // ------------------------------------------------------------------------------------------------
+pub trait ShimDefault {
+    fn shim_default() -> Self;
+}
+impl ShimDefault for std::sync::atomic::AtomicU64 {
+    fn shim_default() -> Self {
+        std::sync::atomic::AtomicU64::new(0)
+    }
+}
+impl ShimDefault for Entry {
+    fn shim_default() -> Self {
+        Entry { index: 0, term: 0, payload: 0 }
+    }
+}
+pub struct SkInner<K, V> {
+    used: [bool; CAP],
+    keys: [K; CAP],
+    vals: [V; CAP],
+}
 pub struct SkipMap<K, V> {
-    slots: SCell<[Option<(K, V)>; CAP]>,
+    s: SCell<SkInner<K, V>>,
 }
 pub struct SkEntry<'a, K, V> {
     k: &'a K,
@@ -149,29 +170,56 @@ impl<'a, K, V> SkEntry<'a, K, V> {
         self.v
     }
 }
-impl<K: Ord + Copy, V> SkipMap<K, V> {
+#[inline(always)]
+fn in_bounds<K: Ord + Copy>(k: K, lo: Bound<K>, hi: Bound<K>) -> bool {
+    let ok_lo = match lo {
+        Bound::Included(l) => k >= l,
+        Bound::Excluded(l) => k > l,
+        Bound::Unbounded => true,
+    };
+    let ok_hi = match hi {
+        Bound::Included(h) => k <= h,
+        Bound::Excluded(h) => k < h,
+        Bound::Unbounded => true,
+    };
+    ok_lo && ok_hi
+}
+impl<K: Ord + Copy + Default, V: ShimDefault> SkipMap<K, V> {
     pub fn new() -> Self {
-        SkipMap { slots: SCell::new(std::array::from_fn(|_| None)) }
+        SkipMap {
+            s: SCell::new(SkInner {
+                used: [false; CAP],
+                keys: [K::default(); CAP],
+                vals: std::array::from_fn(|_| V::shim_default()),
+            }),
+        }
     }
     fn slot_of(&self, k: &K) -> Option<usize> {
-        let s = self.slots.r();
+        let s = self.s.r();
         let mut i = 0;
         while i < CAP {
-            if let Some((kk, _)) = &s[i] {
-                if *kk == *k {
-                    return Some(i);
-                }
+            if s.used[i] && s.keys[i] == *k {
+                return Some(i);
             }
             i += 1;
         }
         None
     }
     fn entry_at(&self, i: usize) -> SkEntry<'_, K, V> {
-        let (k, v) = self.slots.r()[i].as_ref().unwrap();
-        SkEntry { k, v }
+        let s = self.s.r();
+        SkEntry { k: &s.keys[i], v: &s.vals[i] }
     }
     pub fn get(&self, k: &K) -> Option<SkEntry<'_, K, V>> {
-        self.slot_of(k).map(|i| self.entry_at(i))
+        match self.slot_of(k) {
+            Some(i) => Some(self.entry_at(i)),
+            None => None,
+        }
+    }
+    fn put_at(&self, i: usize, k: K, v: V) {
+        let s = self.s.m();
+        s.used[i] = true;
+        s.keys[i] = k;
+        s.vals[i] = v;
     }
     /// crossbeam: an existing entry with the same key is removed first.
     pub fn insert(&self, k: K, v: V) -> SkEntry<'_, K, V> {
@@ -179,7 +227,7 @@ impl<K: Ord + Copy, V> SkipMap<K, V> {
             Some(i) => i,
             None => self.free_slot(),
         };
-        self.slots.m()[i] = Some((k, v));
+        self.put_at(i, k, v);
         self.entry_at(i)
     }
     pub fn get_or_insert(&self, k: K, v: V) -> SkEntry<'_, K, V> {
@@ -187,16 +235,16 @@ impl<K: Ord + Copy, V> SkipMap<K, V> {
             Some(i) => self.entry_at(i),
             None => {
                 let i = self.free_slot();
-                self.slots.m()[i] = Some((k, v));
+                self.put_at(i, k, v);
                 self.entry_at(i)
             }
         }
     }
     fn free_slot(&self) -> usize {
-        let s = self.slots.r();
+        let s = self.s.r();
         let mut i = 0;
         while i < CAP {
-            if s[i].is_none() {
+            if !s.used[i] {
                 return i;
             }
             i += 1;
@@ -206,26 +254,21 @@ impl<K: Ord + Copy, V> SkipMap<K, V> {
     pub fn remove(&self, k: &K) -> Option<K> {
         match self.slot_of(k) {
             Some(i) => {
-                self.slots.m()[i] = None;
+                self.s.m().used[i] = false;
                 Some(*k)
             }
             None => None,
         }
     }
     pub fn clear(&self) {
-        let s = self.slots.m();
-        let mut i = 0;
-        while i < CAP {
-            s[i] = None;
-            i += 1;
-        }
+        self.s.m().used = [false; CAP];
     }
     pub fn len(&self) -> usize {
-        let s = self.slots.r();
+        let s = self.s.r();
         let mut n = 0;
         let mut i = 0;
         while i < CAP {
-            if s[i].is_some() {
+            if s.used[i] {
                 n += 1;
             }
             i += 1;
@@ -235,66 +278,38 @@ impl<K: Ord + Copy, V> SkipMap<K, V> {
     pub fn is_empty(&self) -> bool {
         self.len() == 0
     }
-    /// smallest key k with lo < k (or lo <= k) and k < hi (or k <= hi)
+    /// slot of the smallest key inside the bounds
     fn next_up(&self, lo: Bound<K>, hi: Bound<K>) -> Option<usize> {
-        let s = self.slots.r();
-        let mut best: Option<usize> = None;
+        let s = self.s.r();
+        let mut found = false;
+        let mut best = 0usize;
+        let mut bestk = K::default();
         let mut i = 0;
         while i < CAP {
-            if let Some((k, _)) = &s[i] {
-                let ok_lo = match lo {
-                    Bound::Included(l) => *k >= l,
-                    Bound::Excluded(l) => *k > l,
-                    Bound::Unbounded => true,
-                };
-                let ok_hi = match hi {
-                    Bound::Included(h) => *k <= h,
-                    Bound::Excluded(h) => *k < h,
-                    Bound::Unbounded => true,
-                };
-                if ok_lo && ok_hi {
-                    let better = match best {
-                        None => true,
-                        Some(b) => *k < s[b].as_ref().unwrap().0,
-                    };
-                    if better {
-                        best = Some(i);
-                    }
-                }
+            if s.used[i] && in_bounds(s.keys[i], lo, hi) && (!found || s.keys[i] < bestk) {
+                found = true;
+                best = i;
+                bestk = s.keys[i];
             }
             i += 1;
         }
-        best
+        if found { Some(best) } else { None }
     }
     fn next_down(&self, lo: Bound<K>, hi: Bound<K>) -> Option<usize> {
-        let s = self.slots.r();
-        let mut best: Option<usize> = None;
+        let s = self.s.r();
+        let mut found = false;
+        let mut best = 0usize;
+        let mut bestk = K::default();
         let mut i = 0;
         while i < CAP {
-            if let Some((k, _)) = &s[i] {
-                let ok_lo = match lo {
-                    Bound::Included(l) => *k >= l,
-                    Bound::Excluded(l) => *k > l,
-                    Bound::Unbounded => true,
-                };
-                let ok_hi = match hi {
-                    Bound::Included(h) => *k <= h,
-                    Bound::Excluded(h) => *k < h,
-                    Bound::Unbounded => true,
-                };
-                if ok_lo && ok_hi {
-                    let better = match best {
-                        None => true,
-                        Some(b) => *k > s[b].as_ref().unwrap().0,
-                    };
-                    if better {
-                        best = Some(i);
-                    }
-                }
+            if s.used[i] && in_bounds(s.keys[i], lo, hi) && (!found || s.keys[i] > bestk) {
+                found = true;
+                best = i;
+                bestk = s.keys[i];
             }
             i += 1;
         }
-        best
+        if found { Some(best) } else { None }
     }
     pub fn front(&self) -> Option<SkEntry<'_, K, V>> {
         self.next_up(Bound::Unbounded, Bound::Unbounded).map(|i| self.entry_at(i))
@@ -315,7 +330,7 @@ pub struct SkIter<'a, K, V> {
     lo: Bound<K>,
     hi: Bound<K>,
 }
-impl<'a, K: Ord + Copy, V> Iterator for SkIter<'a, K, V> {
+impl<'a, K: Ord + Copy + Default, V: ShimDefault> Iterator for SkIter<'a, K, V> {
     type Item = SkEntry<'a, K, V>;
     fn next(&mut self) -> Option<Self::Item> {
         let i = self.m.next_up(self.lo, self.hi)?;
@@ -324,7 +339,7 @@ impl<'a, K: Ord + Copy, V> Iterator for SkIter<'a, K, V> {
         Some(e)
     }
 }
-impl<'a, K: Ord + Copy, V> DoubleEndedIterator for SkIter<'a, K, V> {
+impl<'a, K: Ord + Copy + Default, V: ShimDefault> DoubleEndedIterator for SkIter<'a, K, V> {
     fn next_back(&mut self) -> Option<Self::Item> {
         let i = self.m.next_down(self.lo, self.hi)?;
         let e = self.m.entry_at(i);
@@ -402,20 +417,61 @@ impl<K, V> Iterator for HmIntoIter<K, V> {
 }
 
 // ------------------------------------------------------------------------------------------------
-// channels
+// channels.  The shared state lives in TYPED STATICS (one queue per message type, a small pool of oneshot cells per
+// payload type): a heap cell (Arc) is an untyped byte array for CBMC, the Pending/Ready decision read back from it is
+// no longer a constant, and every poll round of every operation gets explored (measured: 2.9M vs 0.3M variables for
+// one purge).  Consequence, stated: ONE log instance per harness.
 // ------------------------------------------------------------------------------------------------
 pub const QCAP: usize = 3;
+pub const OCAP: usize = 4;
 pub mod mpsc {
     use super::*;
-    pub struct Chan<T> {
-        pub q: SCell<[Option<T>; QCAP]>,
-        pub rx_closed: SCell<bool>,
+    pub struct MpscState<T> {
+        pub q: [Option<T>; QCAP],
+        pub rx_closed: bool,
     }
-    pub struct UnboundedSender<T>(pub Arc<Chan<T>>);
-    pub struct UnboundedReceiver<T>(pub Arc<Chan<T>>);
+    pub trait MpscPooled: Sized + 'static {
+        fn state() -> &'static SCell<MpscState<Self>>;
+        /// Model hook: `None` = the receiving side consumed the message at send time.
+        fn intercept(v: Self) -> Option<Self> {
+            Some(v)
+        }
+    }
+    /// When set, the model IO thread acknowledges every control task at the moment it is sent (it runs "infinitely
+    /// fast"): the caller's `done_rx.await` is then ready at its first poll and no future is ever suspended.
+    /// (A suspended-and-resumed nested future makes CBMC re-explore every state of every level; measured: out of
+    /// memory for ONE conflict-append.)  The IO thread never touches the in-memory state the C19/C04/C09 harnesses
+    /// observe, so this scheduling choice does not restrict what they decide.
+    pub static IO_AUTO_ACK: SCell<bool> = SCell::new(false);
+    pub static IO_ACKED: SCell<[u32; 4]> = SCell::new([0; 4]);
+    pub fn io_ack(cmd: crate::gen_brl::IOTask) {
+        use crate::gen_brl::IOTask;
+        match cmd {
+            IOTask::ReplaceRange { done, new_entries, .. } => {
+                std::mem::forget(new_entries);
+                IO_ACKED.m()[0] += 1;
+                let _ = done.send(Ok(()));
+            }
+            IOTask::Purge { done, .. } => {
+                IO_ACKED.m()[1] += 1;
+                let _ = done.send(());
+            }
+            IOTask::Reset { done } => {
+                IO_ACKED.m()[2] += 1;
+                let _ = done.send(Ok(()));
+            }
+            IOTask::Flush(done) => {
+                IO_ACKED.m()[3] += 1;
+                let _ = done.send(Ok(()));
+            }
+            IOTask::Shutdown => {}
+        }
+    }
+    pub struct UnboundedSender<T>(pub std::marker::PhantomData<fn(T)>);
+    pub struct UnboundedReceiver<T>(pub std::marker::PhantomData<fn(T)>);
     impl<T> Clone for UnboundedSender<T> {
         fn clone(&self) -> Self {
-            UnboundedSender(self.0.clone())
+            UnboundedSender(std::marker::PhantomData)
         }
     }
     impl<T> std::fmt::Debug for UnboundedSender<T> {
@@ -432,20 +488,23 @@ pub mod mpsc {
             Disconnected,
         }
     }
-    pub fn unbounded_channel<T>() -> (UnboundedSender<T>, UnboundedReceiver<T>) {
-        let c = Arc::new(Chan { q: SCell::new(std::array::from_fn(|_| None)), rx_closed: SCell::new(false) });
-        (UnboundedSender(c.clone()), UnboundedReceiver(c))
+    pub fn unbounded_channel<T: MpscPooled>() -> (UnboundedSender<T>, UnboundedReceiver<T>) {
+        (UnboundedSender(std::marker::PhantomData), UnboundedReceiver(std::marker::PhantomData))
     }
-    impl<T> UnboundedSender<T> {
+    impl<T: MpscPooled> UnboundedSender<T> {
         pub fn send(&self, v: T) -> std::result::Result<(), error::SendError<T>> {
-            if *self.0.rx_closed.r() {
+            let st = T::state().m();
+            if st.rx_closed {
                 return Err(error::SendError(v));
             }
-            let q = self.0.q.m();
+            let v = match T::intercept(v) {
+                Some(v) => v,
+                None => return Ok(()),
+            };
             let mut i = 0;
             while i < QCAP {
-                if q[i].is_none() {
-                    q[i] = Some(v);
+                if st.q[i].is_none() {
+                    st.q[i] = Some(v);
                     return Ok(());
                 }
                 i += 1;
@@ -453,15 +512,15 @@ pub mod mpsc {
             panic!("shim capacity: mpsc model queue full");
         }
     }
-    impl<T> UnboundedReceiver<T> {
+    impl<T: MpscPooled> UnboundedReceiver<T> {
         pub fn try_recv(&mut self) -> std::result::Result<T, error::TryRecvError> {
-            let q = self.0.q.m();
-            match q[0].take() {
+            let st = T::state().m();
+            match st.q[0].take() {
                 None => Err(error::TryRecvError::Empty),
                 Some(v) => {
                     let mut i = 1;
                     while i < QCAP {
-                        q[i - 1] = q[i].take();
+                        st.q[i - 1] = st.q[i].take();
                         i += 1;
                     }
                     Ok(v)
@@ -469,11 +528,11 @@ pub mod mpsc {
             }
         }
         pub fn len(&self) -> usize {
-            let q = self.0.q.r();
+            let st = T::state().r();
             let mut n = 0;
             let mut i = 0;
             while i < QCAP {
-                if q[i].is_some() {
+                if st.q[i].is_some() {
                     n += 1;
                 }
                 i += 1;
@@ -485,7 +544,7 @@ pub mod mpsc {
         }
     }
     struct RecvFut<'a, T>(&'a mut UnboundedReceiver<T>);
-    impl<'a, T> Future for RecvFut<'a, T> {
+    impl<'a, T: MpscPooled> Future for RecvFut<'a, T> {
         type Output = Option<T>;
         fn poll(mut self: Pin<&mut Self>, _cx: &mut Context<'_>) -> Poll<Option<T>> {
             match self.0.try_recv() {
@@ -494,50 +553,125 @@ pub mod mpsc {
             }
         }
     }
+    impl MpscPooled for crate::gen_brl::IOTask {
+        fn state() -> &'static SCell<MpscState<Self>> {
+            static S: SCell<MpscState<crate::gen_brl::IOTask>> = SCell::new(MpscState { q: [None, None, None], rx_closed: false });
+            &S
+        }
+        fn intercept(v: Self) -> Option<Self> {
+            if *IO_AUTO_ACK.r() {
+                io_ack(v);
+                None
+            } else {
+                Some(v)
+            }
+        }
+    }
+    impl MpscPooled for InternalEvent {
+        fn state() -> &'static SCell<MpscState<Self>> {
+            static S: SCell<MpscState<InternalEvent>> = SCell::new(MpscState { q: [None, None, None], rx_closed: false });
+            &S
+        }
+    }
 }
 pub mod oneshot {
     use super::*;
-    pub struct Inner<T> {
-        pub v: SCell<Option<T>>,
-        pub tx_gone: SCell<bool>,
+    pub struct Cell1<T> {
+        pub v: Option<T>,
+        pub tx_gone: bool,
+        pub live: bool,
     }
-    pub struct Sender<T>(pub Arc<Inner<T>>);
-    pub struct Receiver<T>(pub Arc<Inner<T>>);
+    pub struct OneState<T> {
+        pub cells: [Cell1<T>; OCAP],
+        pub next: usize,
+    }
+    pub trait OneshotPooled: Sized + 'static {
+        fn state() -> &'static SCell<OneState<Self>>;
+    }
+    pub struct Sender<T: OneshotPooled>(pub usize, pub std::marker::PhantomData<fn(T)>);
+    pub struct Receiver<T: OneshotPooled>(pub usize, pub std::marker::PhantomData<fn(T)>);
     pub mod error {
         #[derive(Debug)]
         pub struct RecvError;
     }
-    impl<T> std::fmt::Debug for Sender<T> {
+    impl<T: OneshotPooled> std::fmt::Debug for Sender<T> {
         fn fmt(&self, f: &mut std::fmt::Formatter<'_>) -> std::fmt::Result {
             f.write_str("oneshot::Sender")
         }
     }
-    pub fn channel<T>() -> (Sender<T>, Receiver<T>) {
-        let c = Arc::new(Inner { v: SCell::new(None), tx_gone: SCell::new(false) });
-        (Sender(c.clone()), Receiver(c))
+    pub fn channel<T: OneshotPooled>() -> (Sender<T>, Receiver<T>) {
+        let st = T::state().m();
+        let i = st.next;
+        if i >= OCAP {
+            panic!("shim capacity: oneshot model pool exhausted");
+        }
+        st.next = i + 1;
+        st.cells[i].live = true;
+        (Sender(i, std::marker::PhantomData), Receiver(i, std::marker::PhantomData))
     }
-    impl<T> Sender<T> {
+    impl<T: OneshotPooled> Sender<T> {
         pub fn send(self, v: T) -> std::result::Result<(), T> {
-            *self.0.v.m() = Some(v);
+            T::state().m().cells[self.0].v = Some(v);
             Ok(())
         }
     }
-    impl<T> Drop for Sender<T> {
+    impl<T: OneshotPooled> Drop for Sender<T> {
         fn drop(&mut self) {
-            *self.0.tx_gone.m() = true;
+            T::state().m().cells[self.0].tx_gone = true;
         }
     }
-    impl<T> Future for Receiver<T> {
+    impl<T: OneshotPooled> Future for Receiver<T> {
         type Output = std::result::Result<T, error::RecvError>;
         fn poll(self: Pin<&mut Self>, _cx: &mut Context<'_>) -> Poll<Self::Output> {
-            if let Some(v) = self.0.v.m().take() {
+            let c = &mut T::state().m().cells[self.0];
+            if let Some(v) = c.v.take() {
                 return Poll::Ready(Ok(v));
             }
-            if *self.0.tx_gone.r() {
+            if c.tx_gone {
                 return Poll::Ready(Err(error::RecvError));
             }
             Poll::Pending
         }
+    }
+    const fn cell<T>() -> Cell1<T> {
+        Cell1 { v: None, tx_gone: false, live: false }
+    }
+    impl OneshotPooled for () {
+        fn state() -> &'static SCell<OneState<Self>> {
+            static S: SCell<OneState<()>> = SCell::new(OneState { cells: [cell(), cell(), cell(), cell()], next: 0 });
+            &S
+        }
+    }
+    impl OneshotPooled for Result<()> {
+        fn state() -> &'static SCell<OneState<Self>> {
+            static S: SCell<OneState<Result<()>>> = SCell::new(OneState { cells: [cell(), cell(), cell(), cell()], next: 0 });
+            &S
+        }
+    }
+}
+/// R6: what `.await` becomes in the de-sugared caller-side functions.
+pub trait ShimNow {
+    type Out;
+    fn shim_now(self) -> Self::Out;
+}
+impl<T, E> ShimNow for std::result::Result<T, E> {
+    type Out = std::result::Result<T, E>;
+    #[inline(always)]
+    fn shim_now(self) -> Self::Out {
+        self
+    }
+}
+impl<T: oneshot::OneshotPooled> ShimNow for oneshot::Receiver<T> {
+    type Out = std::result::Result<T, oneshot::error::RecvError>;
+    fn shim_now(self) -> Self::Out {
+        let c = &mut T::state().m().cells[self.0];
+        if let Some(v) = c.v.take() {
+            return Ok(v);
+        }
+        if c.tx_gone {
+            return Err(oneshot::error::RecvError);
+        }
+        panic!("shim: await would suspend (the model IO thread has not replied)");
     }
 }
 pub struct Notify {
